@@ -6,12 +6,12 @@
 // function in the native builds).
 // Bounds: ay.min < py.min <= py.max < ay.max, pz = H(py) at both ends (what _defineBounds establishes: the practical
 // bounds are points of the expansion), az.min < pz.min, pz.max < az.max, gaps between absolute and practical
-// bounds at least 2^-20 (isEqual tolerance is 1e-10); every combination of the eight inclusion flags.
+// bounds at least 2^-20 (isEqual tolerance is 1e-10); inclusion flags: see build().
 //   k_raw:    transformToRawValue: value inside [az.min, az.max]; non-decreasing over ALL y (two free points, across
 //             every zone boundary); without bounds (_flagBound false) it is H itself.
 //   k_gauss:  rawToTransformValue for z outside the practical interval (constant and linear branches):
-//             value inside [ay.min, ay.max]; non-decreasing (two free points); transformToRaw(rawToTransform(z)) == z
-//             clamped to the absolute interval.
+//             value inside [ay.min, ay.max]; non-decreasing (two free points).
+//   k_rt_z:   same z: transformToRaw(rawToTransform(z)) == z clamped to the absolute interval.
 //   k_lin_y:  y in a linear zone or beyond: rawToTransform(transformToRaw(y)) == y clamped to the absolute interval.
 // The bisection inverse inside the practical interval (up to 10^6 iterations) is outside the claim.
 #include "vf.h"
@@ -41,6 +41,11 @@ static AnamHermite* build(bool flagBound)
   bool f[8];
   for (int i = 0; i < 8; i++) f[i] = vf_nondet_bool();
   vf_assume(aymin >= -1.e6 && aymin <= 1.e6 && d1 <= 1.e6 && d2 <= 1.e6 && d3 <= 1.e6 && e1 <= 1.e6 && e3 <= 1.e6);
+#ifdef VF_YFIX
+  // Gaussian-side bounds fixed (the products of two symbolic bounds in the linear zones are what the solver cannot
+  // take in the inverse direction); the raw-side bounds and H stay arbitrary
+  aymin = VF_AYMIN; d1 = VF_PYMIN - VF_AYMIN; d2 = VF_PYMAX - VF_PYMIN; d3 = VF_AYMAX - VF_PYMAX;
+#endif
   pymin = aymin + d1;
   pymax = pymin + d2;
   aymax = pymax + d3;
@@ -53,6 +58,11 @@ static AnamHermite* build(bool flagBound)
   a->_flagBound = flagBound;
   a->_rCoef = 1.;
   new (&a->_psiHn) VectorDouble(2);
+  // inclusion flags: Interval's constructor / init() give (min included or not, max excluded) and setVmin/setVmax
+  // leave them alone; VF_MAXINC also makes the four "max included" flags arbitrary
+#ifndef VF_MAXINC
+  f[1] = f[3] = f[5] = f[7] = false;
+#endif
   a->_az._vmin = azmin; a->_az._vmax = azmax; a->_az._minIncluded = f[0]; a->_az._maxIncluded = f[1];
   a->_ay._vmin = aymin; a->_ay._vmax = aymax; a->_ay._minIncluded = f[2]; a->_ay._maxIncluded = f[3];
   a->_pz._vmin = pzmin; a->_pz._vmax = pzmax; a->_pz._minIncluded = f[4]; a->_pz._maxIncluded = f[5];
@@ -111,7 +121,7 @@ extern "C" void k_gauss()
 {
   AnamHermite* a = build(true);
   double z1 = vf_finite_double(), z2 = vf_finite_double();
-  vf_assume(z1 > -1.e29 && z1 < 1.e29 && z2 > -1.e29 && z2 < 1.e29);
+  vf_assume(z1 >= -1.e29 && z1 <= 1.e29 && z2 >= -1.e29 && z2 <= 1.e29);
   vf_assume(z1 <= z2);
   // outside the practical interval: the constant and linear branches (inside it: bisection, outside the claim)
   vf_assume(below(z1, pzmin, a->_pz._minIncluded) || above(z1, pzmax, a->_pz._maxIncluded));
@@ -121,6 +131,17 @@ extern "C" void k_gauss()
   double y1 = toGauss(a, z1), y2 = toGauss(a, z2);
   vf_assert_id(y1 >= aymin && y1 <= aymax, "gaussian value inside the absolute interval");
   vf_assert_id(le(y1, y2), "rawToTransformValue is non-decreasing outside the practical interval (both sides)");
+  vf_witness();
+}
+
+extern "C" void k_rt_z()
+{
+  AnamHermite* a = build(true);
+  double z1 = vf_finite_double();
+  vf_assume(z1 >= -1.e29 && z1 <= 1.e29);
+  vf_assume(below(z1, pzmin, a->_pz._minIncluded) || above(z1, pzmax, a->_pz._maxIncluded));
+  vf_split(z1 <= azmin); vf_split(z1 <= pzmin); vf_split(z1 < azmax);
+  double y1 = toGauss(a, z1);
   vf_assert_id(eq(toRaw(a, y1), clamp(z1, azmin, azmax)), "transformToRaw(rawToTransform(z)) == z clamped to the absolute interval (constant and linear zones)");
   vf_witness();
 }
